@@ -1,7 +1,7 @@
 """C19 drivers of the real code: FileUploader.remote_putfile, IncidentObserver._got_incident / update_latest,
 LogPublisher.remote_get_incident, save_service_data -- all in scratch directories under /verif/_build/C19 with a
 sentinel sibling directory; os-level calls are recorded (and optionally made to raise) by wrapping."""
-import builtins, bz2, io, json, os, shutil, stat, sys
+import builtins, bz2, errno, io, json, os, shutil, stat, sys
 
 from twisted.internet import defer
 from twisted.python import failure, filepath
@@ -75,13 +75,16 @@ class Recorder:
     performing the k-th one.  Ops: ('open', path, mode) ('write', path, nbytes) ('close', path) ('rename', a, b)
     ('chmod', path, mode) ('unlink', path)"""
 
-    def __init__(self, arena, crash_at=None):
+    def __init__(self, arena, crash_at=None, fail_at=None, fail_errno=None, persistent=False, nest_at=None, nest_fn=None):
         self.arena = arena
         self.ops = []
         self.crash_at = crash_at
         self.saved = None
         self.dead = False
         self.crashed_on = None
+        self.fail_at, self.fail_errno, self.persistent, self.failed_kind = fail_at, fail_errno, persistent, None
+        self.nest_at, self.nest_fn, self.in_nested, self.nested_ops = nest_at, nest_fn, False, []
+        self.attempts = 0
         self.files = []
         self.written = []       # data of every recorded write, in order
 
@@ -100,8 +103,29 @@ class Recorder:
             return False
 
     def pre(self, op):
-        """called before an operation is performed: the process dies here if this is the crash point, and stays
-        dead (no later operation is performed either)"""
+        """called before an operation is performed.
+        crash_at=k: the process dies before its k-th operation and stays dead (no later operation is performed either);
+        fail_at=k : the k-th attempted operation FAILS with OSError(fail_errno) and is not performed; the program goes
+                    on (its exception handling runs); persistent=True: every later operation of the same kind fails too
+                    (a directory that stays unwritable, a temporary that stays gone), else the fault is transient;
+        nest_at=k : just before the k-th attempted operation a SECOND writer (nest_fn) runs to completion"""
+        if self.in_nested:
+            return
+        idx = self.attempts
+        self.attempts += 1
+        if self.nest_at is not None and idx == self.nest_at:
+            self.in_nested = True
+            saved, self.ops = self.ops, self.nested_ops
+            try:
+                self.nest_fn()
+            finally:
+                self.ops = saved
+                self.in_nested = False
+        if self.fail_at is not None and not self.dead:
+            if idx == self.fail_at or (self.persistent and self.failed_kind == op[0]):
+                self.failed_kind = op[0]
+                self.ops.append(("FAIL", errno.errorcode.get(self.fail_errno, "?")) + tuple(op))
+                raise OSError(self.fail_errno, os.strerror(self.fail_errno), op[1])
         if self.dead or (self.crash_at is not None and len(self.ops) == self.crash_at):
             self.dead = True
             self.crashed_on = self.crashed_on or op
